@@ -21,7 +21,9 @@ func normalizeNodeURI(nodeURI, nodeID, defaultHost, defaultPort string) (string,
 			return "", err
 		}
 
-		if h := uri.Hostname(); h != "::" && h != "" {
+		if h := uri.Hostname(); h != "::" && h != "0.0.0.0" && h != "" {
+			// An unspecified address is what a node reports when it does not
+			// know its public address: use where the connection came from.
 			host = h
 		}
 
